@@ -1258,7 +1258,8 @@ def generate_all():
                              covers_expected=1,
                              bound='real std collection of 3 symbolic elements (VecDeque with a wrapped buffer), real ConIterOfIter, one worker via the Runner contract, terminals count / xor-reduce / first against the collection\'s own iterator')
     for nm in ('k_merge_real_one_vector_prefix_vec', 'k_merge_real_two_vectors_prefix_vec', 'k_merge_real_one_vector_prefix_pinned', 'k_merge_real_two_vectors_prefix_pinned'):
-        HARNESSES[nm] = dict(kernel='merge', family='merge', props=['C01', 'C06'], tier='quick', bounded=True,
+        # (the SplitVec variants take ~200 s alone and went beyond 16 GB under load: optional)
+        HARNESSES[nm] = dict(kernel='merge', family='merge', props=['C01', 'C06'], tier=('thorough' if nm.endswith('_pinned') else 'quick'), bounded=True,
                              path='core::verif_kani::h_drop::%s' % nm, shape=dict(vectors=(1 if 'one_vector' in nm else 2), prefix=1, elements=2),
                              covers_expected=None, covers_min=0,
                              bound='the REAL merge function (no stub): %s worker vector(s), 2 keyed elements with symbolic values, output holding 1 previous element' % ('one' if 'one_vector' in nm else 'two'))
